@@ -205,7 +205,10 @@ func checkC07(c *CheckCtx) error {
 		cleanGenOpts{maxTests: 4, maxCalls: 4, change: 0.3, drop: 0.3, add: 0.3, staleProb: 0.6, decoyProb: 0.5, sortProb: 0.5, againProb: 0.2, counts: true, moveProb: 0.2, oddDirs: true}); err != nil {
 		return err
 	}
-	return c.repro(reproK5())
+	if err := c.repro(reproK5()); err != nil {
+		return err
+	}
+	return c.repro(malformedTail(true, 1), malformedTail(false, 2))
 }
 
 func checkC09(c *CheckCtx) error {
@@ -306,4 +309,27 @@ func (c *CheckCtx) repro(scs ...*Scenario) error {
 		c.nontrivial(s.Note)
 	}
 	return c.runSeq(scs)
+}
+
+// malformedTail: a used file that ends with an entry lacking its terminator (truncated / badly
+// merged), examined BEFORE a file that Clean rewrites: nothing of it may leak into the other file
+// (C07: "all pre-existing directory contents").
+func malformedTail(sortMode bool, n int) *Scenario {
+	sc := &Scenario{ID: fmt.Sprintf("mt%d", n), Configs: stdConfigs(), Program: append([]string{}, topTests...)}
+	sc.Init = append(sc.Init,
+		InitFile{P: "snaps/custom.snap", Role: "multi", Content: []byte("\n[TestA - 1]\nkept\n---\n\n[TestOld - 1]\nleft over line\nand another")},
+		InitFile{P: "snaps/main_test.snap", Role: "multi", Content: []byte("\n[TestB - 2]\ntwo\n---\n\n[TestGone - 1]\nstale\n---\n\n[TestB - 1]\none\n---\n")})
+	spec := ProcSpec{}
+	if !sortMode {
+		spec.UpdVar = sp("clean")
+	}
+	sc.Procs = append(sc.Procs, &Proc{Spec: spec, Real: true, State: "call", Clean: &CleanDef{Sort: sortMode, Twice: true}, Tests: map[string]*TDef{
+		"TestA": {Execs: [][]*Step{{{Op: "match", API: "snapshot", Cfg: "f", Val: strVal("kept")}}}},
+		"TestB": {Execs: [][]*Step{{{Op: "match", API: "snapshot", Cfg: "c", Val: strVal("one")}, {Op: "match", API: "snapshot", Cfg: "c", Val: strVal("two")}}}},
+	}})
+	sc.Procs = append(sc.Procs, &Proc{Spec: procSpec("ci"), Real: true, State: "call", Tests: map[string]*TDef{
+		"TestB": {Execs: [][]*Step{{{Op: "match", API: "snapshot", Cfg: "c", Val: strVal("one")}, {Op: "match", API: "snapshot", Cfg: "c", Val: strVal("two")}}}},
+	}})
+	sc.Note = fmt.Sprintf("a used file with an unterminated last entry is examined before a file Clean rewrites (sort=%v)", sortMode)
+	return sc
 }
